@@ -139,7 +139,12 @@ def do_case(ctx, case):
     with rnglog.patched(log):
         res = call(lambda: EVQEIndividual.add_random_layers(o, nl, rnd, seed))
     ctx.tally("append:ok" if nl >= 1 else "append:too-few")
-    if nl < 1:
+    if n == 0 and nl >= 1:
+        # a 0-qubit individual is valid; appending to it raises the LAYER exception (C16_random_append_zero_qubits)
+        ctx.tally("append:zero-qubits")
+        if res[0] != "exc" or res[1] != "EVQECircuitLayerException":
+            ctx.violation("oracle", "append-zero-qubits", f"add_random_layers on a 0-qubit individual must raise EVQECircuitLayerException, got {res[:2]}", case)
+    elif nl < 1:
         if res[0] != "exc" or res[1] != EXC:
             ctx.violation("oracle", "append-too-few", f"add_random_layers(n_layers={nl}) must raise {EXC}, got {res[:2]}", case)
     elif res[0] != "ok":
@@ -222,6 +227,11 @@ def fixed_cases():
     lead = {"n": 2, "layers": [{"n": 2, "gates": [["I", 0], ["I", 1]]}, {"n": 2, "gates": [["CR", 0, 1], ["C", 1, 0]]}, {"n": 2, "gates": [["R", 0], ["R", 1]]}], "values": [float(v) for v in range(1, 10)]}
     out += [{"kind": "change_layer", "ind": lead, "layer_id": lid, "vs": vs} for lid, vs in ((1, [20.0, 21.0, 22.0]), (2, [20.0, 21.0, 22.0, 23.0, 24.0, 25.0]), (0, []))]
     out += [{"kind": "remove", "ind": lead, "k": k} for k in (1, 2)]
+    # the individual on 0 qubits: valid for the constructors; every operation but the random append works on it
+    empty = {"n": 0, "layers": [{"n": 0, "gates": []}, {"n": 0, "gates": []}], "values": []}
+    out += [{"kind": "append", "ind": empty, "n_layers": nl, "randomize": r, "seed": 1} for nl in (1, 2, 0) for r in (False, True)]
+    out += [{"kind": "remove", "ind": empty, "k": k} for k in (0, 1, 2)]
+    out += [{"kind": "change_layer", "ind": empty, "layer_id": 3, "vs": []}, {"kind": "change_all", "ind": empty, "vs": []}]
     return out
 
 
